@@ -278,6 +278,56 @@ pub fn run(mode: &str, thorough: bool, seed: u64, w: &mut impl std::io::Write) {
     // every schedule of <= 3 ReadBufs from {empty+cap0, empty+cap1, empty+cap4, prefilled 1 + cap 0, prefilled 2 + cap 2}
     let bufs = [(0usize, 0usize), (0, 1), (0, 4), (1, 0), (2, 2)];
     let scheds: Vec<Vec<AOp>> = seqs(&bufs, 3).into_iter().filter(|s| !s.is_empty()).map(|s| s.into_iter().map(|(p, c)| AOp::Read(p, c)).collect()).collect();
+    // every error kind std::io knows: on reads, writes, flush and shutdown, from either stream
+    for kind in 2u8..=38 {
+        let ops = vec![AOp::Read(0, 4), AOp::Write(b"xy".to_vec()), AOp::Flush, AOp::Read(1, 4), AOp::Write(b"z".to_vec()), AOp::Shutdown, AOp::Read(0, 4)];
+        if mode == "achain" {
+            let mut s1 = ASrw::new(1, b"AB", vec![RAct::Err(kind), RAct::Data(1, false)]);
+            let mut s2 = ASrw::new(2, b"cdef", vec![RAct::Data(2, false), RAct::Err(kind)]);
+            s1.wacts = vec![WAct::Err(kind)];
+            s2.wacts = vec![WAct::Err(kind), WAct::Full];
+            s2.facts = vec![Some(kind), Some(kind)];
+            chain_line(&s1, &s2, &ops, w);
+            n += 1;
+        }
+        if mode == "atake" {
+            let mut s = ASrw::new(1, b"abcdefgh", vec![RAct::Err(kind), RAct::Data(3, false), RAct::Err(kind)]);
+            s.wacts = vec![WAct::Err(kind), WAct::Part(1)];
+            s.facts = vec![Some(kind), Some(kind)];
+            take_line(&s, 5, &ops, w);
+            n += 1;
+        }
+    }
+    // long runs of polls on ONE adapter value (poll counters that wrap, cooperative-yield budgets), inner stream always
+    // Ready, or Pending every 60th poll
+    {
+        let d1: Vec<u8> = (0..150u32).map(|i| b'A' + (i % 26) as u8).collect();
+        let d2: Vec<u8> = (0..250u32).map(|i| b'a' + (i % 26) as u8).collect();
+        let reads: Vec<AOp> = (0..330).map(|_| AOp::Read(0, 1)).collect();
+        let mut mixed: Vec<AOp> = vec![];
+        for i in 0..300 {
+            mixed.push(AOp::Read(0, 1));
+            mixed.push(AOp::Write(vec![b'0' + (i % 10) as u8]));
+            if i % 50 == 49 {
+                mixed.push(AOp::Flush);
+            }
+        }
+        let pend = |k: usize| -> Vec<RAct> { (0..400).map(|i| if i % k == k - 1 { RAct::Pending } else { RAct::Data(1, false) }).collect() };
+        if mode == "achain" {
+            chain_line(&ASrw::new(1, &d1, vec![]), &ASrw::new(2, &d2, vec![]), &reads, w);
+            chain_line(&ASrw::new(1, &d1, vec![]), &ASrw::new(2, &d2, vec![]), &mixed, w);
+            chain_line(&ASrw::new(1, &d1, pend(60)), &ASrw::new(2, &d2, pend(60)), &reads, w);
+            n += 3;
+        }
+        if mode == "atake" {
+            for limit in [280u64, 1000] {
+                take_line(&ASrw::new(1, &d2, vec![]), limit, &reads, w);
+                take_line(&ASrw::new(1, &d2, vec![]), limit, &mixed, w);
+                take_line(&ASrw::new(1, &d2, pend(60)), limit, &reads, w);
+                n += 3;
+            }
+        }
+    }
     if mode == "achain" {
         let a1 = [RAct::Data(1, false), RAct::Data(2, false), RAct::Eof, RAct::Err(5), RAct::Pending, RAct::Data(2, true)];
         let a2 = [RAct::Data(3, false), RAct::Eof, RAct::Err(5), RAct::Pending];
